@@ -187,7 +187,11 @@ impl<'input> Lexer<'input> {
         let mut state = StrScanState::None;
         let mut first_hex_char = None;
 
+        // Interpolation slots index into the UTF-8 encoded string, so the
+        // start of a slot is tracked in bytes; the position in `chars` is
+        // only used to recognise the character directly after the `$`.
         let mut cur_interpolation_start = 0;
+        let mut cur_interpolation_start_chars = 0;
         let mut interpolation_slots = vec![];
         let mut interpolation_brace_count = 0;
 
@@ -202,7 +206,8 @@ impl<'input> Lexer<'input> {
                         state = StrScanState::Escape;
                     } else if c == '$' {
                         if interpolate {
-                            cur_interpolation_start = chars.len();
+                            cur_interpolation_start = utf8_len(&chars);
+                            cur_interpolation_start_chars = chars.len();
                             state = StrScanState::Interpolate;
                             chars.push('$');
                         } else {
@@ -260,7 +265,9 @@ impl<'input> Lexer<'input> {
                 // different escape character for the different steps, but we
                 // use the current approach for consistency.
                 StrScanState::Interpolate => {
-                    if cur_interpolation_start+1 == chars.len() && c != '{' {
+                    if cur_interpolation_start_chars+1 == chars.len()
+                        && c != '{'
+                    {
                         return Err(LexError::InvalidInterpolationStart(
                             cur_loc,
                             c,
@@ -275,7 +282,8 @@ impl<'input> Lexer<'input> {
 
                     if interpolation_brace_count == 0 {
                         // We shorten the slot to ignore the delimiters.
-                        let slot = (cur_interpolation_start, chars.len()+1);
+                        let slot =
+                            (cur_interpolation_start, utf8_len(&chars)+1);
                         interpolation_slots.push(slot);
                         state = StrScanState::None;
                     }
@@ -437,6 +445,12 @@ impl<'input> Lexer<'input> {
 
         Some(Ok((start_loc, t, (line, col))))
     }
+}
+
+// `utf8_len` returns the number of bytes `chars` occupies when encoded as
+// UTF-8.
+fn utf8_len(chars: &[char]) -> usize {
+    chars.iter().map(|c| c.len_utf8()).sum()
 }
 
 enum StrScanState {
